@@ -2,6 +2,7 @@ import BigtreeModel.Modify
 import BigtreeProofs.Lemmas.ModifyFold
 import BigtreeProofs.Lemmas.ModifyEdit
 import BigtreeProofs.Lemmas.ModifyMerge
+import BigtreeProofs.Lemmas.ModifyReplace
 /-!
 # C08 — shift / copy / replace perform exactly the documented edit and nothing else
 
@@ -793,6 +794,92 @@ example : call1 (cfgOf false false false true false false true) '/' exWide 12 [[
         .node 2 ['k','0'] [] [], .node 3 ['k','1'] [] [.node 4 ['g'] [] []],
         .node 5 ['k','2'] [] [], .node 6 ['k','3'] [] [], .node 7 ['k','4'] [] [],
         .node 8 ['k','5'] [] []]]]) 12) := by
+  decide +kernel
+
+
+/-! ## replace: the newcomer takes the replaced node's sibling position -/
+
+/-- `shift_and_replace_nodes(tree, [from], [to])` with full paths: the replaced node `D` is the
+child called `d` of `P` (the node at `tpar`), between the siblings `before` and `after`; the
+from-node `F` is neither inside `D` nor contains it, and — the case the statement excludes — it
+is **not a later sibling of `D` under the same parent** (`notLater`). `nodup`: once `D` is gone
+no other child of `P` is called like the from-node. -/
+structure ReplaceHyp (cfg : Cfg) (c : Char) (t : Tree) (fpar tpar : List Str) (f d : Str)
+    (F D P : Tree) (before after : List Tree) : Prop where
+  plain : cfg.Plain c
+  dc : cfg.deleteChildren = false
+  su : SibUnique t
+  gf : GoodNames c (t.name :: fpar ++ [f])
+  gt : GoodNames c (t.name :: tpar ++ [d])
+  found : getRel (fpar ++ [f]) t = some F
+  parent : getRel tpar t = some P
+  split : P.children = before ++ D :: after
+  dname : D.name = d
+  out1 : (fpar ++ [f]).isPrefixOf (tpar ++ [d]) = false
+  out2 : (tpar ++ [d]).isPrefixOf (fpar ++ [f]) = false
+  notLater : ∀ y ∈ after, y.name = f → fpar ≠ tpar
+  nodup : ∀ y ∈ P.children, y.name = f → f = d ∨ fpar = tpar
+
+/-- The replaced node is gone and the from-node (the same object, with its subtree) stands at
+its sibling position: the parent's child list is `X ++ F :: A` where `A` are the later siblings
+and `X` the earlier ones (minus the from-node itself if it was an earlier sibling), each with
+unchanged name, identity and attributes, in unchanged order; no object is created. -/
+theorem replace_keeps_position {cfg c t k fpar tpar f d F D P before after}
+    (h : ReplaceHyp cfg c t fpar tpar f d F D P before after) (hcp : cfg.copy = false) :
+    ∃ t' P' X A, replaceNodes cfg (st0 t k)
+        [(pathStr c t.name (fpar ++ [f]), some (pathStr c t.name (tpar ++ [d])))] = .ok (st0 t' k) ∧
+      getRel tpar t' = some P' ∧ P'.children = X ++ F :: A ∧
+      X.map ent = (before.filter (fun x => !(decide (fpar = tpar) && x.name == f))).map ent ∧
+      A.map ent = after.map ent :=
+  replace_core h.plain hcp h.dc t k fpar tpar f d F D P before after h.su h.gf h.gt h.found h.parent
+    h.split h.dname h.out1 h.out2 h.notLater h.nodup
+
+/-- `a(x, D(q), y(q), F, z)` -/
+def exRep : Tree :=
+  .node 0 ['a'] [] [.node 1 ['x'] [] [], .node 2 ['D'] [] [.node 3 ['q'] [] []],
+                    .node 4 ['y'] [] [.node 5 ['q'] [] []], .node 6 ['F'] [] [], .node 7 ['z'] [] []]
+
+/-- non-vacuity: replace `D` by the node `/a/y/q` (not a sibling) -/
+example : ReplaceHyp (cfgOf false false false false false false true) '/' exRep [['y']] [] ['q'] ['D']
+    (.node 5 ['q'] [] []) (.node 2 ['D'] [] [.node 3 ['q'] [] []]) exRep
+    [.node 1 ['x'] [] []]
+    [.node 4 ['y'] [] [.node 5 ['q'] [] []], .node 6 ['F'] [] [], .node 7 ['z'] [] []] where
+  plain := ⟨rfl, rfl, rfl, rfl⟩
+  dc := rfl
+  su := by decide +kernel
+  gf := by decide +kernel
+  gt := by decide +kernel
+  found := by decide +kernel
+  parent := by decide +kernel
+  split := by decide +kernel
+  dname := rfl
+  out1 := by decide +kernel
+  out2 := by decide +kernel
+  notLater := by decide +kernel
+  nodup := by decide +kernel
+
+example : replaceNodes (cfgOf false false false false false false true) (st0 exRep 8)
+      [(pathStr '/' ['a'] [['y'], ['q']], some (pathStr '/' ['a'] [['D']]))]
+    = .ok (st0 (.node 0 ['a'] [] [.node 1 ['x'] [] [], .node 5 ['q'] [] [],
+        .node 4 ['y'] [] [], .node 6 ['F'] [] [], .node 7 ['z'] [] []]) 8) := by
+  decide +kernel
+
+/-- Observation (not a defect of the property as stated; recorded in DESIGN §5): when the
+from-node is a LATER sibling of the replaced node, the "re-append the later siblings" loop puts
+it back at its own old place, so it does not take the replaced node's position:
+`[x, D, y, F, z]` with `F` replacing `D` becomes `[x, y, F, z]`, not `[x, F, y, z]`. -/
+theorem replace_later_sibling_observation :
+    replaceNodes (cfgOf false false false false false false true) (st0 exRep 8)
+      [(pathStr '/' ['a'] [['F']], some (pathStr '/' ['a'] [['D']]))]
+    = .ok (st0 (.node 0 ['a'] [] [.node 1 ['x'] [] [], .node 4 ['y'] [] [.node 5 ['q'] [] []],
+        .node 6 ['F'] [] [], .node 7 ['z'] [] []]) 8) := by
+  decide +kernel
+
+/-- an EARLIER sibling does take the position (covered by `replace_keeps_position`) -/
+example : replaceNodes (cfgOf false false false false false false true) (st0 exRep 8)
+      [(pathStr '/' ['a'] [['x']], some (pathStr '/' ['a'] [['y']]))]
+    = .ok (st0 (.node 0 ['a'] [] [.node 2 ['D'] [] [.node 3 ['q'] [] []], .node 1 ['x'] [] [],
+        .node 6 ['F'] [] [], .node 7 ['z'] [] []]) 8) := by
   decide +kernel
 
 end C08
